@@ -11,6 +11,7 @@
 
 mod util;
 mod fields;
+mod curves;
 
 use std::io::{BufRead, Write};
 use std::panic::{catch_unwind, AssertUnwindSafe};
@@ -21,6 +22,7 @@ static LAST_PANIC: Mutex<String> = Mutex::new(String::new());
 
 pub struct State {
     pub fields: fields::FieldRegs,
+    pub curves: curves::CurveRegs,
 }
 
 fn handle(line: &str, st: &mut State) -> util::R {
@@ -34,6 +36,12 @@ fn handle(line: &str, st: &mut State) -> util::R {
                 return Err("f <type> <op> ...".into());
             }
             fields::dispatch(toks[1], toks[2], &toks[3..], &mut st.fields)
+        }
+        "g" => {
+            if toks.len() < 3 {
+                return Err("g <curve> <op> ...".into());
+            }
+            curves::dispatch(toks[1], toks[2], &toks[3..], &mut st.curves)
         }
         "ping" => Ok("pong".into()),
         "cfg" => {
@@ -72,7 +80,7 @@ fn main() {
     let stdin = std::io::stdin();
     let stdout = std::io::stdout();
     let mut out = std::io::BufWriter::with_capacity(1 << 16, stdout.lock());
-    let mut st = State { fields: Default::default() };
+    let mut st = State { fields: Default::default(), curves: Default::default() };
     for line in stdin.lock().lines() {
         let line = match line {
             Ok(l) => l,
